@@ -54,6 +54,17 @@ def gen(seed, tier):
         o.pop("d", None)
         segs = [seg(0, [g.any_frame(r.choice(pool))]) for _ in range(r.randint(2, 9))]
         cases.append(H("C03-h%d" % i, o, segs))
+    # isolation under extreme (legal) --delete-after values, with enough frames for the expiry sweep to run several times:
+    # no row of another aircraft may vanish or change
+    for i, d in enumerate([9223372036854775807, 10000000000000, 1000000000000, 8300000000000, 4294967296, -1 + 2 ** 31, 2 ** 31, 86400 * 365 * 1000]):
+        for u in ((0, 1) if tier != "quick" else (i % 2,)):
+            pool = r.sample(ICAOS, 4)
+            o = {"d": d}
+            if u:
+                o["U"] = 1
+            # the sweep counter is per reader run: each segment must itself hold more than 12 applied lines
+            segs = [seg(0, [g.any_frame(r.choice(pool)) for _ in range(15)]) for _ in range(3)]
+            cases.append(H("C03-x%d-%d" % (i, u), o, segs))
     # frames whose address is zero, of every format, between ordinary frames: dropped by the reader, no row 000000
     def zero_frame():
         return r.choice([hx(df17(0, g.me_ident()), 112), hx(df17(0, g.me_airpos()), 112), hx(df11(0, 5), 56),
@@ -88,6 +99,20 @@ def oracle(parts, outcome, obs):
             return None if obs in ("msg=-", "notutf8") else "line taken as a frame: %s" % obs
         if not obs.endswith(want):
             return "address %s expected %s" % (obs.split(" ")[-1], want)
+        return None
+    if parts[0].startswith("C03-x"):
+        # nothing can expire (all frames arrive within the same second, --delete-after is huge): every address heard so far
+        # has its row after every segment
+        heard = set()
+        osegs = obs.split("#")
+        for k, (t, lines) in enumerate(pyspec.case_segments(parts)):
+            for ln in lines:
+                fr = pyspec.frame_of_line(ln)
+                if fr and fr != "zero":
+                    heard.add(fr[1])
+            got = set(pyspec.rows_of(osegs[k]).keys()) if k < len(osegs) else set()
+            if got != heard:
+                return "segment %d: rows %s, addresses heard %s" % (k, sorted("%06X" % a for a in got), sorted("%06X" % a for a in heard))
         return None
     # H: isolation between consecutive one-line segments
     segs = pyspec.case_segments(parts)
